@@ -17,6 +17,10 @@ namespace LIB = std;
 #define CAP 16
 #endif
 #define WMAX (CAP / 8)
+#ifndef WMIN
+#define WMIN 1 // captures of WMIN..WMAX 8-byte words
+#endif
+#define NW (WMAX - WMIN + 1)
 #ifndef KSTEPS
 #define KSTEPS 3
 #endif
@@ -237,12 +241,12 @@ Q q_fr_fnptr()
 
 // ------------------------------------------------------------------------------------------------------------------
 // inplace_function<int(int), CAP>: abstract model per object = empty | (kind, captured state)
-// kinds: 1 = Z (empty class), 2 = function pointer, 3.. = Tv<1..WMAX> (trivially copyable), then Nt<1..WMAX> (non-trivial)
+// kinds: 1 = Z (empty class), 2 = function pointer, 3.. = Tv<WMIN..WMAX> (trivially copyable), then Nt<WMIN..WMAX> (non-trivial)
 // ------------------------------------------------------------------------------------------------------------------
 struct M { int kind; int s; };
-#define NK (2 + 2 * WMAX)
-static bool is_nt(int k) { return k >= 3 + WMAX; }
-static int who_of(int k) { return k == 1 ? W_Z : k == 2 ? W_FREE1 : k < 3 + WMAX ? W_TV + (k - 2) : W_NT + (k - 2 - WMAX); }
+#define NK (2 + 2 * NW)
+static bool is_nt(int k) { return k >= 3 + NW; }
+static int who_of(int k) { return k == 1 ? W_Z : k == 2 ? W_FREE1 : k < 3 + NW ? W_TV + (k - 3 + WMIN) : W_NT + (k - 3 - NW + WMIN); }
 static int state_of(M m) { return m.kind <= 2 ? 0 : m.s; }
 static bool g_expect_empty;
 // the kernel's assert handler (etl::raise<bad_function_call>) lands here; the path ends
@@ -256,7 +260,7 @@ static void by_kind(void* f, int kind, int s, int how) // how: 0 assign, 1 const
 {
     if (kind == 1) { if (how == 0) k_ipf_assign_z(f); else k_ipf_from_z(f); return; }
     if (kind == 2) { if (how == 0) k_ipf_assign_fp(f); else k_ipf_from_fp(f); return; }
-    int w = kind < 3 + WMAX ? kind - 2 : kind - 2 - WMAX;
+    int w = kind < 3 + NW ? kind - 3 + WMIN : kind - 3 - NW + WMIN;
     bool nt = is_nt(kind);
 #define DO(W)                                                                                                          \
     if (w == W) {                                                                                                      \
@@ -264,8 +268,13 @@ static void by_kind(void* f, int kind, int s, int how) // how: 0 assign, 1 const
         else { if (how == 0) k_ipf_assign_nt##W(f, s); else if (how == 1) k_ipf_from_nt##W(f, s); else k_ipf_from_nt##W##_l(f, s); }     \
         return;                                                                                                        \
     }
-    DO(1) DO(2)
-#if WMAX >= 3
+#if WMIN <= 1
+    DO(1)
+#endif
+#if WMIN <= 2 && WMAX >= 2
+    DO(2)
+#endif
+#if WMIN <= 3 && WMAX >= 3
     DO(3)
 #endif
 #if WMAX >= 4
@@ -427,14 +436,14 @@ Q q_ipf_hist()
         vf_assume(op < HOPS);
         g_expect_empty = false; vf_log_reset();
         switch (op) {
-        case 0: k_ipf_assign_tv1(f[0], s); m[0] = M{3, s}; break;                       // a = small trivially copyable callable
-        case 1: by_kind(f[0], 2 + 2 * WMAX, s, 0); m[0] = M{2 + 2 * WMAX, s}; break;    // a = non-trivial callable filling the capacity
+        case 0: by_kind(f[0], 3, s, 0); m[0] = M{3, s}; break;                          // a = smallest trivially copyable callable
+        case 1: by_kind(f[0], 2 + 2 * NW, s, 0); m[0] = M{2 + 2 * NW, s}; break;        // a = non-trivial callable filling the capacity
         case 2: k_ipf_copy_assign(f[1], f[0]); m[1] = m[0]; break;                      // b = a
         case 3: k_ipf_move_assign(f[0], f[1]); m[0] = m[1]; m[1] = M{0, 0}; break;      // a = move(b)
         case 4: k_ipf_swap(f[0], f[1]); { M x = m[0]; m[0] = m[1]; m[1] = x; } break;   // a.swap(b)
         case 5: k_ipf_reset(f[0]); m[0] = M{0, 0}; break;                               // a = nullptr
-        case 6: by_kind(f[1], 2 + WMAX, s, 0); m[1] = M{2 + WMAX, s}; break;            // b = trivially copyable callable filling the capacity
-        case 7: k_ipf_assign_nt1(f[1], s); m[1] = M{3 + WMAX, s}; break;                // b = small non-trivial callable
+        case 6: by_kind(f[1], 2 + NW, s, 0); m[1] = M{2 + NW, s}; break;                // b = trivially copyable callable filling the capacity
+        case 7: by_kind(f[1], 3 + NW, s, 0); m[1] = M{3 + NW, s}; break;                // b = smallest non-trivial callable
         case 8: check_call(f[0], m[0], a); break;                                       // a(x)
         default: check_call(f[1], m[1], a); break;                                      // b(x)
         }
